@@ -85,6 +85,21 @@ template <class C> void Exec<C>::exec_op(int i) {
     case OP_MKLIST: case OP_COMPOSE: case OP_COMPOSE_MALLOC: case OP_DISSECT: case OP_FREEQL:
         exec_query(i, op, o); break;
     case OP_ESCAPE: case OP_FILENAME: exec_misc(i, op, o); break;
+    case OP_A_SELFTEST: {
+        // uriTestMemoryManager on a manager of this history: whatever it requests must be returned, with the pointers it was given
+        MgrInst& m = mgr_of(op.mgr);
+        if (!m.table) break;
+        o.skipped = false;
+        UriMemoryManager* t = m.table; volatile int rc = 0;
+        event("op %d self test of manager %d", i, op.mgr);
+        if (!call(i, TAG_STR + 51, op.mgr, FaultPlan(), [&] { rc = uriTestMemoryManager(t); })) { o.aborted = true; break; }
+        o.rc = rc;
+        if (m.kind == MK_INCOMPLETE) { if (rc != URI_ERROR_MEMORY_MANAGER_INCOMPLETE || outs_tmp_reqs || outs_tmp_frees) violate(V_ALLOC_BEFORE_REJECT, "uriTestMemoryManager on an incomplete manager returned " + std::to_string(rc), false); o.digest = "rejected"; break; }
+        if (rc != URI_SUCCESS) violate(V_WRONG_RC, "uriTestMemoryManager on a correct manager returned " + std::to_string(rc), false);
+        { int live = heap_live_count(-1, TAG_STR + 51, -1); if (live) violate(V_LEAK_AFTER_RELEASE, "uriTestMemoryManager left " + std::to_string(live) + " block(s) allocated: " + heap_live_desc(-1, TAG_STR + 51, -1), false); }
+        o.digest = "self test ok";
+        break;
+    }
     case OP_A_MALLOC: case OP_A_CALLOC: case OP_A_REALLOCARRAY: {
         // allocator probe through the manager table itself (exercises the emulation / decoration layer of a completed manager inside
         // histories and concurrent worlds): one request, released at once if it was granted
